@@ -173,7 +173,7 @@ def level_sentences():
     out = []
     for n in ["PE", "System", "L1_", "x0"]:
         out.append(([n], {"name": n, "num": 1}))
-        for k in ["0", "1", "7", "10", "127", "007"]:
+        for k in ["0", "1", "7", "10", "127", "007", "9007199254740993", "18446744073709551615"]:
             out.append(([n, "[0..", k, "]"], {"name": n, "num": int(k) + 1}))
     return out
 
